@@ -48,8 +48,15 @@ func setSliceHeader(slicePtr unsafe.Pointer, arrayPtr unsafe.Pointer, length int
 }
 
 func unsafeToSlice(array interface{}, count int) unsafe.Pointer {
+	data := reflect2.PtrOf(array)
+	if t := reflect2.TypeOf(array); t.Kind() == reflect.Array && t.LikePtr() {
+		// an array that Go stores in the interface word itself (one element of a pointer-shaped
+		// type, e.g. [1]*T): the word is the element, not the address of the array
+		word := data
+		data = unsafe.Pointer(&word)
+	}
 	return unsafe.Pointer(&sliceHeader{
-		Data: reflect2.PtrOf(array),
+		Data: data,
 		Len:  count,
 		Cap:  count,
 	})
